@@ -1181,6 +1181,7 @@ fn merge(left_struct_array: &StructArray, right_struct_array: &StructArray) -> S
                         if left_list.data_type() == right_list.data_type() {
                             fields.push(left_field.as_ref().clone());
                             columns.push(left_column.clone());
+                            continue;
                         }
                         // If we have two List<Struct> and they have different sets of fields then
                         // we can merge them if the offsets arrays are the same.  Otherwise, we
